@@ -15,8 +15,10 @@ import (
 	"math/rand"
 	"reflect"
 	"sort"
+	"strings"
 	"sync"
 
+	qrb "github.com/networkteam/qrb"
 	"github.com/networkteam/qrb/builder"
 	"verif/internal/gen"
 )
@@ -159,6 +161,8 @@ func runC05(out io.Writer, seed int64, n int, steps int) {
 type c10Result struct {
 	ID         int      `json:"id"`
 	Prog       string   `json:"prog"`
+	First      string   `json:"first"` // the first rendering of this value in this process
+
 	Renders    int      `json:"renders"`
 	Violations []string `json:"violations"`
 }
@@ -168,7 +172,7 @@ var c10KeyFamilies = [][]string{
 	{"col", "col_", "col_1", "col_10", "col_2"}, {"ab", "a_b", "aB", "Ab"}, {"ß", "ss", "SS"}, {"", " "},
 }
 
-func runC10(out io.Writer, seed int64, n int, reps int) {
+func runC10(out io.Writer, seed int64, n int, reps int, reverse bool) {
 	enc := json.NewEncoder(out)
 	g := gen.New(seed, pool)
 	sg := &gen.S{G: g}
@@ -227,13 +231,31 @@ func runC10(out io.Writer, seed int64, n int, reps int) {
 				w, prog, _ = sg.Statement(1 + g.Rng.Intn(4))
 			}
 			if w != nil {
-				items = append(items, item{w, rebuild, prog, observe(w, allBinds)})
+				items = append(items, item{w, rebuild, prog, obs{}})
 			}
 		}()
 	}
+	// pairs that use one and the same string once as a name and once as a cast type: a verdict remembered for the
+	// one must not leak into the other, whichever is rendered first
+	for _, str := range gen.CrossKindStrings() {
+		str := str
+		items = append(items,
+			item{qrb.Select(builder.N(str)), nil, fmt.Sprintf("Select(N(%q))", str), obs{}},
+			item{qrb.Select(builder.N("x").Cast(str)), nil, fmt.Sprintf("Select(N(\"x\").Cast(%q))", str), obs{}})
+	}
+	// the first rendering of every value, in generation order or (second run of the check) in reverse order:
+	// the outcome must not depend on what was rendered before
+	for k := range items {
+		i := k
+		if reverse {
+			i = len(items) - 1 - k
+		}
+		items[i].ref = observe(items[i].w, allBinds)
+	}
 	results := make([]c10Result, len(items))
 	for i := range items {
-		results[i] = c10Result{ID: i, Prog: items[i].prog, Violations: []string{}}
+		results[i] = c10Result{ID: i, Prog: items[i].prog, Violations: []string{},
+			First: fmt.Sprintf("%q %s %q", items[i].ref.SQL, items[i].ref.Args, items[i].ref.Err)}
 	}
 	var mu sync.Mutex
 	check := func(i int, where string) {
@@ -282,7 +304,64 @@ type c11Result struct {
 	Violations []string `json:"violations"`
 }
 
+// first-touch phase of C11: goroutines render values nobody in this process has rendered before (longer argument
+// lists than ever, fresh derivations of shared JSON objects with spare capacity); the expected text is computed
+// without rendering
+func c11FirstTouch(seed int64) []string {
+	const G = 16
+	var bad []string
+	var mu sync.Mutex
+	report := func(s string) { mu.Lock(); bad = append(bad, s); mu.Unlock() }
+	// shared JSON objects with 3, 5, 6, 7 properties (append leaves spare capacity at these sizes)
+	var jsonBases []builder.JsonBuildObjectBuilder
+	for _, k := range []int{3, 5, 6, 7} {
+		o := builder.JsonBuildObject(false)
+		for i := 0; i < k; i++ {
+			o = o.Prop(fmt.Sprintf("p%d", i), builder.N(fmt.Sprintf("c%d", i)))
+		}
+		jsonBases = append(jsonBases, o)
+	}
+	var wg sync.WaitGroup
+	start := make(chan struct{})
+	for gi := 0; gi < G; gi++ {
+		wg.Add(1)
+		go func(gi int) {
+			defer wg.Done()
+			<-start
+			for round := 0; round < 6; round++ {
+				// IN list with more arguments than any earlier rendering of this goroutine
+				k := 33 + 29*round + 3*gi + int(seed%7)
+				vals := make([]int, k)
+				want := make([]string, k)
+				for i := range vals {
+					vals[i] = 1
+					want[i] = fmt.Sprintf("$%d", i+1)
+				}
+				q := qrb.Select(builder.N("x")).From(builder.N("t")).Where(builder.N("id").In(builder.Args(vals...)))
+				sql, args, err := builder.Build(q).ToSQL()
+				exp := "SELECT x FROM t WHERE id IN (" + strings.Join(want, ",") + ")"
+				if err != nil || sql != exp || len(args) != k {
+					report(fmt.Sprintf("goroutine %d: %d-argument IN list rendered as %q (%d args, err %v)", gi, k, sql, len(args), err))
+				}
+				// a private derivation of a shared JSON object
+				for bi, base := range jsonBases {
+					key := fmt.Sprintf("g%d_%d", gi, round)
+					d := base.Prop(key, builder.Arg(1))
+					sql, _, _ := builder.Build(qrb.Select(d)).ToSQL()
+					if strings.Count(sql, "'"+key+"'") != 1 || strings.Count(sql, "'g") != 1 {
+						report(fmt.Sprintf("goroutine %d: shared JSON object #%d refined with key %s renders as %q", gi, bi, key, sql))
+					}
+				}
+			}
+		}(gi)
+	}
+	close(start)
+	wg.Wait()
+	return bad
+}
+
 func runC11(out io.Writer, seed int64, nBases int, opsPer int) {
+	firstTouch := c11FirstTouch(seed)
 	g := gen.New(seed, pool)
 	sg := &gen.S{G: g}
 	type base struct {
@@ -337,7 +416,7 @@ func runC11(out io.Writer, seed int64, nBases int, opsPer int) {
 			plans[gi] = append(plans[gi], o)
 		}
 	}
-	res := c11Result{Goroutines: G, Bases: len(bases), Violations: []string{}}
+	res := c11Result{Goroutines: G, Bases: len(bases), Violations: append([]string{}, firstTouch...)}
 	var mu sync.Mutex
 	var wg sync.WaitGroup
 	start := make(chan struct{})
